@@ -49,6 +49,13 @@ TOKENS = {
     "Abs": FAM + ".Abs",
     "AbsImpl": FAM + ".AbsImpl",
     "AbsStill": FAM + ".AbsStill",
+    # lineage: named class below abstract / private intermediates, diamond
+    "AbsStillImpl": FAM + ".AbsStillImpl",
+    "AbsDeepImpl": FAM + ".AbsDeepImpl",
+    "MidAbs": FAM + ".MidAbs",
+    "MidImpl": FAM + ".MidImpl",
+    "BelowPrivate": FAM + ".BelowPrivate",
+    "Diamond": FAM + ".Diamond",
     # **kwargs family
     "Kw": FAM + ".Kw",
     "KwSub": FAM + ".KwSub",
@@ -90,7 +97,8 @@ TOKENS = {
 
 CLASS_TOKENS = [
     "Base", "SubAdd", "SubOver", "SubReq", "SubSub", "Twin", "Twin2", "Far", "_Private", "Unrelated", "Other",
-    "OtherSub", "Abs", "AbsImpl", "AbsStill", "Kw", "KwSub", "HoldOne", "HoldOpt", "HoldUnion", "HoldList",
+    "OtherSub", "Abs", "AbsImpl", "AbsStill", "AbsStillImpl", "AbsDeepImpl", "MidAbs", "MidImpl", "BelowPrivate",
+    "Diamond", "Kw", "KwSub", "HoldOne", "HoldOpt", "HoldUnion", "HoldList",
     "HoldDict", "HoldDeep", "HoldSub", "HoldPair", "HoldPairR",
 ]  # fmt: skip
 FUNC_TOKENS = ["make_sub", "make_base_str", "make_unrelated", "make_int", "make_untyped"]
